@@ -547,33 +547,19 @@ def rule_tentative(ck):
     if len(wh) != 1:
         raise AnalysisError("round_robin: expected one while loop")
     body = rcfg.loop_region(wh[0])
-    sts = [n for n in body if n.kind == "stmt" and isinstance(n.stmt, ast.Assign) and isinstance(n.stmt.targets[0], ast.Subscript) and dotted(n.stmt.targets[0].value) == "schedule"]
-    val = {n: canon(rl.expand(n.stmt.value, n)) for n in sts}
-    tent = [n for n in sts if val[n] == xp(rl, n, "allowable_pilots[i][rate_idx[i] + 1]")]
-    rev = [n for n in sts if val[n] == xp(rl, n, "allowable_pilots[i][rate_idx[i]]")]
-    other = [n for n in sts if n not in tent and n not in rev]
-    ck.require(len(tent) == 1 and len(rev) >= 1 and not other, "C07.R3", rr, other[0].stmt if other else "tentative level / revert", ok="tentative raise to the next level and revert to the current one",
-               bad=f"round robin stores {[val[n][:40] for n in other] or 'no'} into the schedule besides {len(tent)} tentative next-level and {len(rev)} reverting stores", sink="rr:tentative-revert")
-
-    def feas_fact(n):
-        """truth value of the feasibility check on the edges dominating n inside the loop (None if not dominated by one)"""
-        out = []
-        for a_, t_ in facts_at(rl, n):
-            if is_feasible_call(a_) and any(tn in body for tn, _ in rcfg.edges_dominating(n) if tn.kind == "test" and any(x is a_ for x in ast.walk(tn.expr))):
-                out.append(t_)
-        return out
-    for t in tent:
-        checks = [n for n in body if n.kind == "test" and any(is_feasible_call(x) for x in ast.walk(n.expr)) and rcfg.dominates(t, n)]
-        ck.require(len(checks) == 1, "C07.R3", rr, t.stmt, ok="followed by a feasibility check", bad="the tentative level is not followed by exactly one feasibility check", sink="rr:tentative-checked")
-        for cnode in checks:
-            neg = isinstance(cnode.expr, ast.UnaryOp) and isinstance(cnode.expr.op, ast.Not)
-            fe = [s_ for s_ in cnode.succ if s_.kind == "edge" and s_.label is (True if neg else False)][0]
-            reverts = [n for n in rev if rcfg.dominates(fe, n) and canon(rl.expand(n.stmt.targets[0].slice, n)) == canon(rl.expand(t.stmt.targets[0].slice, t))]
-            ck.require(bool(reverts) and wh[0] not in rcfg.reach(fe, avoid=set(reverts)), "C07.R3", rr, cnode.expr, ok="infeasible: the previous level is restored on every path",
-                       bad="on the infeasible edge the schedule is not restored to the station's previous level", sink="rr:revert")
-    for n in rev:
-        ck.require(feas_fact(n) == [False], "C07.R3", rr, n.stmt, ok="revert only on the infeasible edge", bad="a store of the current level outside the infeasible edge", sink="rr:revert-edge")
-
+    # every path through one iteration, interpreted over (level index, schedule slot, copies of the schedule, oracle answers): the slot ends
+    # at the next level only after the oracle accepted exactly that schedule, and otherwise at the current level (sa/props/rrstate.py)
+    from .rrstate import check_iteration
+    sess_defs = [n for n in body if n.kind == "stmt" and isinstance(n.stmt, ast.Assign) and isinstance(n.stmt.value, ast.Call) and call_name(n.stmt.value) == "popleft"
+                 and isinstance(n.stmt.targets[0], ast.Name)]
+    ivars = [n for n in body if n.kind == "stmt" and isinstance(n.stmt, ast.Assign) and isinstance(n.stmt.targets[0], ast.Name)
+             and isinstance(n.stmt.value, ast.Call) and call_name(n.stmt.value) == "get_station_index"]
+    if len(sess_defs) != 1 or len(ivars) != 1:
+        raise AnalysisError("round_robin: the dequeued session / its station index are not bound once in the loop body")
+    names = {"out": "schedule", "idx": "rate_idx", "ladders": "allowable_pilots", "queue": "queue", "session": sess_defs[0].stmt.targets[0].id,
+             "ivar": ivars[0].stmt.targets[0].id}
+    n_paths = check_iteration(ck, "C07.R3", rr, rl, wh[0], names)
+    ck.count("paths through one round-robin iteration interpreted", n_paths)
 
 def rule_output(ck):
     repo = ck.repo
